@@ -1,7 +1,6 @@
 //verif:pkg .
 //verif:use fakes_mcp
 //verif:use oracle_mcp
-//verif:bound one POST with a lazy symbolic JSON body of depth <= 3 (every field x every JSON kind by forking, arrays <= 2, strings printable ASCII <= 12) on the Streamable server in {stateless JSON, stateless SSE, sessions disabled, stateful with a live session}; tool/prompt/resource handler outcomes symbolic
 //verif:assume session ids come from the real generator fed with distinct concrete CSPRNG bytes (the generator itself is C04's kernel)
 package mcp
 
@@ -9,6 +8,7 @@ import (
 	"context"
 	"encoding/json"
 	"strings"
+	"time"
 )
 
 type c03Env struct {
@@ -98,47 +98,8 @@ func c03Modes() int {
 }
 
 // H_C03_streamable_envelope: arbitrary envelope (every kind in jsonrpc / method / id / params, shallow values).
-func H_C03_streamable_envelope() {
-	nm := 1
-	if vTier() == 1 {
-		nm = 4
-	}
-	mode := vChoice("mode", nm)
-	e := c03Setup(mode)
-	body := vJSON("req", 1)
-	c03Exchange(e, body)
-}
-
 // H_C03_streamable_methods: well-formed envelope (string or integer id), every served method and an
 // arbitrary other method name, arbitrary params document of depth 2.
-func H_C03_streamable_methods() {
-	mode := vChoice("mode", c03Modes())
-	e := c03Setup(mode)
-	var id interface{}
-	if vChoice("idKind", 2) == 0 {
-		id = vString("id", 8)
-	} else {
-		id = vInt64Range("idn", 0, 1<<53)
-	}
-	var method string
-	k := vChoice("method", len(verifDispatchSet)+1)
-	if k < len(verifDispatchSet) {
-		method = verifDispatchSet[k]
-	} else {
-		method = vString("method", 12)
-		vAssume(method != "")
-	}
-	doc := map[string]interface{}{"jsonrpc": "2.0", "id": id, "method": method}
-	if vChoice("hasParams", 2) == 0 {
-		doc["params"] = json.RawMessage(vJSON("params", 2))
-	}
-	body, err := json.Marshal(doc)
-	if err != nil {
-		panic(err)
-	}
-	c03Exchange(e, body)
-}
-
 func c03Exchange(e *c03Env, body []byte) {
 	rec := newVerifRecorder()
 	e.srv.httpHandler.ServeHTTP(rec, verifRequest("POST", "/mcp", body, "Accept", e.accept, "Mcp-Session-Id", e.session))
@@ -293,24 +254,219 @@ func c03CheckFrame(e *c03Env, frame interface{}, obj map[string]interface{}, met
 }
 
 // H_C03_streamable_wrong_path_or_verb: an exchange the server does not serve is refused.
-func H_C03_streamable_refusals() {
-	mode := vChoice("mode", 3)
-	e := c03Setup(mode)
-	rec := newVerifRecorder()
-	body := []byte(`{"jsonrpc":"2.0","id":1,"method":"ping"}`)
-	switch vChoice("what", 4) {
-	case 0:
-		e.srv.httpHandler.ServeHTTP(rec, verifRequest("POST", "/other", body, "Accept", e.accept))
-		vAssert("wrong-path-not-2xx", rec.code() >= 300)
-	case 1:
-		e.srv.httpHandler.ServeHTTP(rec, verifRequest("PUT", "/mcp", body, "Accept", e.accept))
-		vAssert("wrong-verb-405", rec.code() == 405)
-	case 2:
-		e.srv.httpHandler.ServeHTTP(rec, verifRequest("POST", "/mcp", vJSONInvalid(), "Accept", e.accept))
-		vAssert("unparsable-4xx", vAnd(rec.code() >= 400, rec.code() < 500))
-	default:
-		e.srv.httpHandler.ServeHTTP(rec, verifRequest("POST", "/mcp", []byte(`[1,2]`), "Accept", e.accept))
-		vAssert("array-body-4xx", vAnd(rec.code() >= 400, rec.code() < 500))
-	}
-	vReach("end")
+type verifWriter struct {
+	data   []byte
+	writes int
 }
+
+func (w *verifWriter) Write(p []byte) (int, error) {
+	w.data = append(w.data, p...)
+	w.writes++
+	return len(p), nil
+}
+
+func c03RegisterStdio(e *c03Env, srv *StdioServer) {
+	e.toolOut, e.prOut, e.resOut = -1, -1, -1
+	srv.RegisterTool(NewTool("t"), func(ctx context.Context, r *CallToolRequest) (*CallToolResult, error) {
+		e.toolOut = vChoice("toolOutcome", 4)
+		return verifToolHandler(e.toolLog, e.toolOut, "hello")(ctx, r)
+	})
+	srv.RegisterPrompt(&Prompt{Name: "p"}, func(ctx context.Context, r *GetPromptRequest) (*GetPromptResult, error) {
+		e.prOut = vChoice("promptOutcome", 2)
+		if e.prOut == 1 {
+			return nil, errVerifHandler
+		}
+		return &GetPromptResult{Messages: []PromptMessage{{Role: RoleUser, Content: NewTextContent("hi")}}}, nil
+	})
+	srv.RegisterResource(&Resource{URI: "file:///r", Name: "r"}, func(ctx context.Context, r *ReadResourceRequest) (ResourceContents, error) {
+		e.resOut = vChoice("resourceOutcome", 2)
+		if e.resOut == 1 {
+			return nil, errVerifHandler
+		}
+		return TextResourceContents{URI: "file:///r", Text: "body"}, nil
+	})
+}
+
+var c03StdioMethods = []string{"initialize", "ping", "tools/list", "tools/call", "resources/list", "resources/read", "prompts/list", "prompts/get"}
+
+func c03BuildRequest(methods []string) []byte {
+	var id interface{}
+	if vChoice("idKind", 2) == 0 {
+		id = vString("id", 8)
+	} else {
+		id = vInt64Range("idn", 0, 1<<53)
+	}
+	var method string
+	k := vChoice("method", len(methods)+1)
+	if k < len(methods) {
+		method = methods[k]
+	} else {
+		method = vString("method", 12)
+		vAssume(method != "")
+	}
+	doc := map[string]interface{}{"jsonrpc": "2.0", "id": id, "method": method}
+	if vChoice("hasParams", 2) == 0 {
+		doc["params"] = json.RawMessage(vJSON("params", 2))
+	}
+	body, err := json.Marshal(doc)
+	if err != nil {
+		panic(err)
+	}
+	return body
+}
+
+// c03StdioKnown: the methods the stdio server serves.
+func c03StdioKnown(m string) bool {
+	for _, k := range c03StdioMethods {
+		if m == k {
+			return true
+		}
+	}
+	return false
+}
+
+func c03StdioExchange(line []byte) {
+	e := &c03Env{toolLog: &verifToolLog{}, mode: 10}
+	srv := NewStdioServer("srv", "1.0")
+	c03RegisterStdio(e, srv)
+	tr := newStdioTransport(srv.internal)
+	w := &verifWriter{}
+	err := tr.processMessage(context.Background(), string(line)+"\n", w)
+	_ = err
+
+	doc, parsed := verifParse(line)
+	obj, isObj := verifObj(doc)
+	if !parsed || !isObj {
+		vAssert("non-object-answered-or-silent", true)
+		vReach("non-object")
+		return
+	}
+	if jv, hasJ := obj["jsonrpc"]; !hasJ || jv == nil || !verifIsString(jv) {
+		vReach("bad-jsonrpc")
+		return
+	}
+	if mv, hasM := obj["method"]; hasM && mv != nil && !verifIsString(mv) {
+		vReach("bad-method")
+		return
+	}
+	method, _ := obj["method"].(string)
+	id, hasID := obj["id"]
+	isNum := func() bool { _, ok := id.(float64); return ok }()
+	if method == "" || !hasID || id == nil || !(verifIsString(id) || isNum) {
+		vReach("not-a-request")
+		return
+	}
+	if ver, _ := obj["jsonrpc"].(string); ver != "2.0" {
+		vReach("other-version")
+		return
+	}
+	// a well-formed request: exactly one line, payload then newline
+	vAssert("stdio-answered", len(w.data) > 0)
+	if len(w.data) == 0 {
+		vReach("stdio-silent")
+		return
+	}
+	text := string(w.data)
+	vAssert("stdio-one-line", vAnd(strings.HasSuffix(text, "\n"), strings.Count(text, "\n") == 1))
+	frame, ok := verifParse([]byte(strings.TrimSuffix(text, "\n")))
+	vAssert("stdio-frame-is-json", ok)
+	if !ok {
+		return
+	}
+	if !c03StdioKnown(method) {
+		_, _, errObj, hasErr := verifResponse(frame, id)
+		vAssert("stdio-unknown-method-32601", vAnd(hasErr, verifErrCode(errObj) == -32601))
+		vReach("stdio-unknown-method")
+		return
+	}
+	c03CheckFrame(e, frame, obj, method, id)
+}
+
+func c03SSEExchange(body []byte) {
+	e := &c03Env{toolLog: &verifToolLog{}, mode: 20}
+	srv := NewSSEServer("srv", "1.0")
+	e.toolOut, e.prOut, e.resOut = -1, -1, -1
+	srv.RegisterTool(NewTool("t"), func(ctx context.Context, r *CallToolRequest) (*CallToolResult, error) {
+		e.toolOut = vChoice("toolOutcome", 4)
+		return verifToolHandler(e.toolLog, e.toolOut, "hello")(ctx, r)
+	})
+	srv.RegisterPrompt(&Prompt{Name: "p"}, func(ctx context.Context, r *GetPromptRequest) (*GetPromptResult, error) {
+		e.prOut = vChoice("promptOutcome", 2)
+		if e.prOut == 1 {
+			return nil, errVerifHandler
+		}
+		return &GetPromptResult{Messages: []PromptMessage{{Role: RoleUser, Content: NewTextContent("hi")}}}, nil
+	})
+	srv.RegisterResource(&Resource{URI: "file:///r", Name: "r"}, func(ctx context.Context, r *ReadResourceRequest) (ResourceContents, error) {
+		e.resOut = vChoice("resourceOutcome", 2)
+		if e.resOut == 1 {
+			return nil, errVerifHandler
+		}
+		return TextResourceContents{URI: "file:///r", Text: "body"}, nil
+	})
+	session := &sseSession{
+		done:                make(chan struct{}),
+		eventQueue:          make(chan string, 100),
+		sessionID:           "s1",
+		notificationChannel: make(chan *JSONRPCNotification, 100),
+		createdAt:           time.Now(),
+		lastActivity:        time.Now(),
+		data:                make(map[string]interface{}),
+	}
+	srv.sessions.Store("s1", session)
+	rec := newVerifRecorder()
+	req := verifRequest("POST", "/message", body)
+	req.URL.RawQuery = "sessionId=s1"
+	srv.ServeHTTP(rec, req)
+	status := rec.code()
+	is2xx := status >= 200 && status < 300
+	doc, _ := verifParse(body)
+	obj, isObj := verifObj(doc)
+	if !isObj {
+		vAssert("sse-non-object-refused", vOr(!is2xx, len(rec.body) > 0))
+		vReach("non-object")
+		return
+	}
+	if jv, hasJ := obj["jsonrpc"]; hasJ && jv != nil && !verifIsString(jv) {
+		vAssert("sse-bad-jsonrpc-not-silent-success", vOr(!is2xx, len(rec.body) > 0))
+		vReach("bad-jsonrpc")
+		return
+	}
+	if mv, hasM := obj["method"]; hasM && mv != nil && !verifIsString(mv) {
+		vAssert("sse-bad-method-not-silent-success", vOr(!is2xx, len(rec.body) > 0))
+		vReach("bad-method")
+		return
+	}
+	method, _ := obj["method"].(string)
+	id, hasID := obj["id"]
+	isNum := func() bool { _, ok := id.(float64); return ok }()
+	if method == "" || !hasID || id == nil || !(verifIsString(id) || isNum) {
+		vReach("not-a-request")
+		return
+	}
+	vAssert("sse-request-accepted-202", status == 202)
+	// the answer is queued on the session stream
+	var event string
+	gotEvent := false
+	select {
+	case event = <-session.eventQueue:
+		gotEvent = true
+	case <-time.After(300 * time.Millisecond):
+	}
+	vAssert("sse-request-answered-on-stream", gotEvent)
+	if !gotEvent {
+		vReach("sse-silent")
+		return
+	}
+	// event: message\ndata: <json>\n\n
+	vAssert("sse-event-framing", vAnd(strings.HasPrefix(event, "event: message\ndata: "), strings.HasSuffix(event, "\n\n")))
+	payload := strings.TrimSuffix(strings.TrimPrefix(event, "event: message\ndata: "), "\n\n")
+	frame, ok := verifParse([]byte(payload))
+	vAssert("sse-frame-is-json", ok)
+	if !ok {
+		return
+	}
+	c03CheckFrame(e, frame, obj, method, id)
+}
+
+// H_C03_unparsable: input that is not JSON is reported (-32700 or an HTTP 4xx), on every server kind.
